@@ -307,23 +307,13 @@ func TestVerifC16KFShowFromOtherDatabase(t *testing.T) {
 	defer st.Flush()
 	g := map[string]vPriv{"db0": vRead}
 	vC16KFRun(t, st, vSigShowFrom,
-		"SHOW SERIES / TAG KEYS / TAG VALUES / FIELD KEYS / MEASUREMENTS / (estimated) CARDINALITY check READ on the ON database only; a FROM source qualified with another database is read without any grant on it",
+		"SHOW SERIES / FIELD KEYS / estimated SERIES CARDINALITY check READ on the ON database only; a FROM source qualified with another database is read without any grant on it",
 		false, []vC16KFCase{
 			{g, "db0", "SHOW SERIES ON db0 FROM db2..m"},
-			{g, "db0", "SHOW TAG KEYS FROM db2.autogen.m"},
-			{g, "db0", "SHOW TAG VALUES ON db0 FROM db2..m WITH KEY = k"},
+			{g, "db0", "SHOW SERIES FROM db2.autogen.m"},
 			{g, "db0", "SHOW FIELD KEYS ON db0 FROM db2..m"},
-			{g, "db0", "SHOW MEASUREMENTS ON db0 WITH MEASUREMENT = db2..m"},
 			{g, "db0", "SHOW SERIES CARDINALITY ON db0 FROM db2..m"},
 		})
-}
-
-func TestVerifC16KFShowMeasurementsWildcard(t *testing.T) {
-	st := verifkit.For("C16", "TestVerifC16KFShowMeasurementsWildcard", "directed: SHOW MEASUREMENTS ON *.* by a user with READ on one of three databases")
-	defer st.Flush()
-	vC16KFRun(t, st, vSigShowWildcard,
-		"SHOW MEASUREMENTS ON *.* lists every database's measurements but requires READ on the request's database only",
-		false, []vC16KFCase{{map[string]vPriv{"db0": vRead}, "db0", "SHOW MEASUREMENTS ON *.*"}})
 }
 
 func TestVerifC16KFCreateCQ(t *testing.T) {
